@@ -14,7 +14,7 @@ import (
 func init() {
 	register(&propDef{
 		id: "C01", level: "other", run: runC01,
-		explanation: "Decided clause: no reachable panic site is left unguarded and every reachable loop has a recognised progress argument, for all library functions reachable from the five decoding entry points. (R1) validator x consumer matrix: the accepted set of validateFieldDef is folded exactly over (profile class x base-type byte 0..255 x size 0..255; byte order selects no arm) and every accepted point is held against the arm that will consume it: bytes read <= size (ByteOrder.UintN panics otherwise), reflect setter compatible with the struct field's kind, array sizes a multiple of the element size (else reflect Index runs past the slice), padding >= 0 (else a negative scratch index); definitions are stored only on the validator's success edge; the validator itself never panics for any input. (R2) panic-site census: every explicit panic, index, slice, non-comma-ok assertion and division in the reachable functions is discharged by the interval analysis with guard refinement, by a linear loop invariant proved inductive on every run (the string-array scanner's j + k < size), by a length test of the same slice (constant indices), by range-loop semantics, by a C15/C20 table obligation, by R1, or by one of 7 frozen audited entries with its reason (cursor invariant, copy count, invariant panics, dead default arms); map updates need their make on every path (map-nonnil); anything else is reported. (R3) loop census: every back edge is a range loop, a counted loop with positive step, a progress loop that consumes input or exits on error, or a loop with a proved ranking argument (the string scanner). (R4) fill makes progress or fails. NOT decided: readers violating the io.Reader contract (0, nil forever), panics inside the standard library on valid arguments, memory exhaustion; audited sites are trusted as written; 32-bit targets are examined in the thorough tier only. Also decided: nil-safety of every dereference / interface call / function-value call in the reachable library functions by origin (C01-R2-nil-deref, C01-R2-nil-param: allocation and address origins, dominating nil tests, parameters by call-site fixpoint over the VTA call graph with the exported entry points' parameters as the stated assumption, callee results on the error-free or ok edge, field disciplines init-before-use and set-before-publish, backward path walk for run-time-assigned package pointers); the four explicit panics are decided structurally, none is audited; Time.In never receives a possibly-nil location. ByteOrder.UintN/PutUintN always receive at least N/8 bytes (C01-R2-byteorder-len); a counted loop's counter cannot wrap before reaching its bound.",
+		explanation: "Decided clause: no reachable panic site is left unguarded and every reachable loop has a recognised progress argument, for all library functions reachable from the five decoding entry points. (R1) validator x consumer matrix: the accepted set of validateFieldDef is folded exactly over (profile class x base-type byte 0..255 x size 0..255; byte order selects no arm) and every accepted point is held against the arm that will consume it: bytes read <= size (ByteOrder.UintN panics otherwise), reflect setter compatible with the struct field's kind, array sizes a multiple of the element size (else reflect Index runs past the slice), padding >= 0 (else a negative scratch index); definitions are stored only on the validator's success edge; the validator itself never panics for any input. (R2) panic-site census: every explicit panic, index, slice, non-comma-ok assertion and division in the reachable functions is discharged by the interval analysis with guard refinement, by a linear loop invariant proved inductive on every run (the string-array scanner's j + k < size), by a length test of the same slice (constant indices), by range-loop semantics, by a C15/C20 table obligation, by R1, or by one of 7 frozen audited entries with its reason (cursor invariant, copy count, invariant panics, dead default arms); map updates need their make on every path (map-nonnil); anything else is reported. (R3) loop census: every back edge is a range loop, a counted loop with positive step, a progress loop that consumes input or exits on error, or a loop with a proved ranking argument (the string scanner). (R4) fill makes progress or fails. NOT decided: readers violating the io.Reader contract (0, nil forever), panics inside the standard library on valid arguments, memory exhaustion; audited sites are trusted as written; 32-bit targets are examined in the thorough tier only. Also decided: nil-safety of every dereference / interface call / function-value call in the reachable library functions by origin (C01-R2-nil-deref, C01-R2-nil-param: allocation and address origins, dominating nil tests, parameters by call-site fixpoint over the VTA call graph with the exported entry points' parameters as the stated assumption, callee results on the error-free or ok edge, field disciplines init-before-use and set-before-publish, backward path walk for run-time-assigned package pointers); the four explicit panics are decided structurally, none is audited; Time.In never receives a possibly-nil location. ByteOrder.UintN/PutUintN always receive at least N/8 bytes (C01-R2-byteorder-len); a counted loop's counter cannot wrap before reaching its bound. Every reflect.Value method that panics on the zero Value (all but IsValid, Kind, String) has a receiver shown valid by origin (C01-R2-zero-value: constructors and Field/Index results, merges valid under a flag, parameters by call site, results on the error-free edge, IsValid()/flag/found-row tests at the use; parseFileIdMsg by the argument that only the file_id definition just stored can be selected).",
 		trusted:     []string{"evaluator and interval transfer functions", "reflect/encoding-binary panic conditions as documented", "frozen audited sites listed in checker/c01.go, one line of reason each"},
 	})
 }
@@ -49,6 +49,7 @@ func runC01(c *Ctx, r *Report) {
 	c01MapNonNil(c, r, scope, roots)
 	c01StdlibArgs(c, r, scope)
 	c01ByteOrderLens(c, r, scope)
+	c01ZeroValues(c, r)
 	c01NilSafety(c, r, scope, roots, ri.module())
 	c01Loops(c, r, scope)
 	// R4
